@@ -5,6 +5,7 @@ mod refmodel;
 mod registry;
 mod refwalk;
 mod runner;
+mod srcgen;
 mod world;
 
 fn main() {
@@ -22,6 +23,8 @@ fn main() {
     "C05" => runner::dispatch(props::c05::spec(), &args),
     "C06" => runner::dispatch(props::c06::spec(), &args),
     "C07" => runner::dispatch(props::c07::spec(), &args),
+    "C08" => runner::dispatch(props::c08::spec(), &args),
+    "C13" => runner::dispatch(props::c13::spec(), &args),
     "C14" => runner::dispatch(props::c14::spec(), &args),
     "C15" => runner::dispatch(props::c15::spec(), &args),
     "C19" => runner::dispatch(props::c19::spec(), &args),
